@@ -105,6 +105,8 @@ def structured_models(tier):
     add("mat-transpose", M2 + "  Real C[3,2];\n", "  C = transpose(A);\n")
     for n in (1, 2, 3):
         add(f"for-1d[{n}]", V, f"  for i in 1:{n} loop\n    w[i] = v[i] * q[i] + a;\n  end for;\n")
+    for lo, st, hi in [(1, 2, 3), (1, 2, 2), (2, 1, 3), (1, 3, 3)]:
+        add(f"for-step[{lo}:{st}:{hi}]", V, f"  for i in {lo}:{st}:{hi} loop\n    w[i] = v[i] + i * a;\n  end for;\n")
     add("for-index-arith", V, "  for i in 1:2 loop\n    w[i] = v[i + 1] - v[i];\n  end for;\n")
     add("for-index-value", V, "  for i in 1:3 loop\n    w[i] = i * v[i];\n  end for;\n")
     add("for-2d", M2, "  for i in 1:2 loop\n    r[i] = A[i,1] + A[i,3] * a;\n  end for;\n")
